@@ -150,7 +150,7 @@ template <int S, int D> struct SplineWorld {
 int main(int argc, char **argv) {
   Args a = parse_args(argc, argv);
   return supervise(a, [&](Ctx &c) {
-    const int depth = c.args.thorough() ? 14 : 8;
+    const int depth = c.args.thorough() ? 20 : 8;
 #if VWORLD == 0
     typedef PPWorld<2, Eigen::Dynamic> W; const char *tag = "PPolyND<2,Dynamic>";
 #elif VWORLD == 1
